@@ -116,7 +116,8 @@ Inv == TypeOK /\ ResultOK /\ CallValid /\ LiveExact /\ MutexOK /\ AtEnd
 (* ---- cases of the guards, for the rustc probes -------------------------- *)
 (* kind "closure" / "constant" / "value": registering a closure capturing,   *)
 (*    a constant of, a script value type of the class (send, sync); accepted *)
-(*    iff RegisterOK                                                         *)
+(*    iff RegisterOK; a closure additionally must not need exclusive access  *)
+(*    to its captured state (RegisterFnOK)                                   *)
 (* kind "context": the context value is never stored in a handle, the caller *)
 (*    passes it by exclusive reference to every call; so a handle may be     *)
 (*    sent on its own whatever the context type is, and only Rust's own      *)
@@ -129,9 +130,12 @@ Routes(k) == CASE k = "closure"  -> {"library_macro", "item_api"}
 CtxUseOK(route, send, sync) == CASE route = "handle_only"     -> TRUE
                                  [] route = "shared_by_ref"   -> sync
                                  [] route = "moved_to_thread" -> send
-ProbeSet == UNION { { [kind |-> k, route |-> r, send |-> se, sync |-> sy,
-                       accepted |-> IF k = "context" THEN CtxUseOK(r, se, sy) ELSE RegisterOK(se, sy)] :
-                      r \in Routes(k), se \in BOOLEAN, sy \in BOOLEAN } : k \in Kinds }
+(* excl: the closure mutates captured state (FnMut); only closures have the dimension *)
+Excl(k) == IF k = "closure" THEN BOOLEAN ELSE {FALSE}
+ProbeSet == UNION { { [kind |-> k, route |-> r, send |-> se, sync |-> sy, excl |-> ex,
+                       accepted |-> IF k = "context" THEN CtxUseOK(r, se, sy)
+                                    ELSE IF k = "closure" THEN RegisterFnOK(se, sy, ex) ELSE RegisterOK(se, sy)] :
+                      r \in Routes(k), se \in BOOLEAN, sy \in BOOLEAN, ex \in Excl(k) } : k \in Kinds }
 ProbeSpec == Init /\ [][FALSE]_vars
 EmitProbes == \A c \in ProbeSet : PrintT(<<"REPLAY", ToJson(c)>>)
 =============================================================================
